@@ -168,6 +168,9 @@ pub enum ROp {
     /// a 64-bit read attempted where fewer than 64 bits remain on a strict backend: its outcome
     /// is C09's business; afterwards the reader state is unspecified until the next seek
     PastEnd,
+    /// peek_bits(k) immediately followed by skip_bits_after_peek(n), n <= k (the contract of the
+    /// trait method; the table decoders use exactly this pair)
+    PeekSkip(usize, usize),
 }
 
 impl ROp {
@@ -183,6 +186,7 @@ impl ROp {
             ROp::Seek(p) => format!("seek:{}", p),
             ROp::IoRead(n) => format!("ior:{}", n),
             ROp::PastEnd => "pastend".into(),
+            ROp::PeekSkip(k, n) => format!("ps:{}:{}", k, n),
         }
     }
     pub fn parse(s: &str) -> ROp {
@@ -198,6 +202,7 @@ impl ROp {
             "seek" => ROp::Seek(f[1].parse().unwrap()),
             "ior" => ROp::IoRead(f[1].parse().unwrap()),
             "pastend" => ROp::PastEnd,
+            "ps" => ROp::PeekSkip(f[1].parse().unwrap(), f[2].parse().unwrap()),
             _ => panic!("bad read op {}", s),
         }
     }
@@ -213,6 +218,7 @@ impl ROp {
             ROp::Seek(_) => "set_bit_pos",
             ROp::IoRead(_) => "io_read",
             ROp::PastEnd => "read_past_end",
+            ROp::PeekSkip(..) => "peek_then_skip_after_peek",
         }
     }
 }
